@@ -215,15 +215,29 @@ theorem inv_init (cfg : Cfg) : Inv cfg {} :=
   ⟨regOK_empty, fun k => by simp [trackedCount, cntOf, aget], fun _ k => by simp [trackedCount, cntOf, aget],
    fun h hm => by simp at hm, rfl⟩
 
+/-- does the death of the function variable release the holder? (a running holder always; a not-yet-started manager
+since the repair of `on_func_var_deleted` – it has started nothing, `tracked = []`, in every admissible run) -/
+def released (cfg : Cfg) (h : Holder) : Bool := h.status == .running || cfg.dropDelayed
+
+theorem dropReg_eq (cfg : Cfg) (r : Reg) (h : Holder) :
+    dropReg cfg r h = if released cfg h then releaseList r h.tracked else r := by
+  unfold dropReg released
+  cases h.status <;> cases cfg.dropDelayed <;> simp
+
+theorem dropHolder_eq (cfg : Cfg) (h : Holder) :
+    dropHolder cfg h = if released cfg h then none else some { h with bound := false } := by
+  unfold dropHolder released
+  cases h.status <;> cases cfg.dropDelayed <;> simp
+
 /-- what dropping the bound holders of a variable does: exactly their registrations are given back -/
-theorem unbind_spec (ctx var : String) : ∀ (hs : List Holder) (r : Reg), RegOK r → r.underflow = false →
+theorem unbind_spec (cfg : Cfg) (ctx var : String) : ∀ (hs : List Holder) (r : Reg), RegOK r → r.underflow = false →
     (∀ k, trackedCount hs k ≤ cntOf r k) →
-    RegOK (unbindReg r ctx var hs) ∧ (unbindReg r ctx var hs).underflow = false ∧
-    (∀ k, cntOf (unbindReg r ctx var hs) k + trackedCount hs k = cntOf r k + trackedCount (unbindHolders ctx var hs) k) ∧
-    (∀ k, cntOf (unbindReg r ctx var hs) k > 0 →
-        aget k (unbindReg r ctx var hs).owner = aget k r.owner ∧ aget k (unbindReg r ctx var hs).handler = aget k r.handler) ∧
-    (∀ h' ∈ unbindHolders ctx var hs, ∃ h ∈ hs, h'.tracked = h.tracked ∧ h'.owner = h.owner ∧ h'.gen = h.gen) ∧
-    (∀ k, trackedCount (unbindHolders ctx var hs) k ≤ trackedCount hs k) := by
+    RegOK (unbindReg cfg r ctx var hs) ∧ (unbindReg cfg r ctx var hs).underflow = false ∧
+    (∀ k, cntOf (unbindReg cfg r ctx var hs) k + trackedCount hs k = cntOf r k + trackedCount (unbindHolders cfg ctx var hs) k) ∧
+    (∀ k, cntOf (unbindReg cfg r ctx var hs) k > 0 →
+        aget k (unbindReg cfg r ctx var hs).owner = aget k r.owner ∧ aget k (unbindReg cfg r ctx var hs).handler = aget k r.handler) ∧
+    (∀ h' ∈ unbindHolders cfg ctx var hs, ∃ h ∈ hs, h'.tracked = h.tracked ∧ h'.owner = h.owner ∧ h'.gen = h.gen) ∧
+    (∀ k, trackedCount (unbindHolders cfg ctx var hs) k ≤ trackedCount hs k) := by
   intro hs
   induction hs with
   | nil =>
@@ -236,9 +250,11 @@ theorem unbind_spec (ctx var : String) : ∀ (hs : List Holder) (r : Reg), RegOK
       intro k; have := hle k; rwa [trackedCount_cons] at this
     by_cases hv : isVar ctx var h = true
     · simp only [unbindReg, unbindHolders, hv, if_true]
-      cases hst : h.status
-      · -- delayed: the manager stays scheduled
-        simp only [dropReg, dropHolder, hst, Option.toList_some, List.singleton_append]
+      rw [dropReg_eq, dropHolder_eq]
+      by_cases hst : released cfg h = true
+      rotate_left
+      · -- a delayed manager before the repair: it stays scheduled
+        simp only [hst, Bool.false_eq_true, if_false, Option.toList_some, List.singleton_append]
         obtain ⟨a1, a2, a3, a4, a5, a6⟩ := ih r hr hu (fun k => by have := hle1 k; omega)
         refine ⟨a1, a2, fun k => ?_, a4, ?_, fun k => ?_⟩
         · have := a3 k
@@ -254,8 +270,8 @@ theorem unbind_spec (ctx var : String) : ∀ (hs : List Holder) (r : Reg), RegOK
           rw [trackedCount_cons, trackedCount_cons]
           show h.tracked.count k + _ ≤ h.tracked.count k + _
           omega
-      · -- running: stopped, its registrations are removed
-        simp only [dropReg, dropHolder, hst, Option.toList_none, List.nil_append]
+      · -- stopped (or discarded): its registrations are removed
+        simp only [hst, if_true, Option.toList_none, List.nil_append]
         obtain ⟨b1, b2, b3, b4⟩ := releaseList_spec h.tracked r hr (fun k => by have := hle1 k; omega)
         obtain ⟨a1, a2, a3, a4, a5, a6⟩ := ih (releaseList r h.tracked) b1 (by rw [b3, hu])
           (fun k => by have := hle1 k; have := b2 k; omega)
@@ -406,8 +422,8 @@ theorem acquireAll_spec (cfg : Cfg) (o : OwnerName) (gen : Nat) : ∀ (decl : Li
 
 theorem inv_delete (cfg : Cfg) (st : MState) (ctx var : String) (hi : Inv cfg st) :
     Inv cfg (step cfg st (.delete ctx var)) := by
-  obtain ⟨a1, a2, a3, a4, a5, _⟩ := unbind_spec ctx var st.holders st.reg hi.regOK hi.noUnder hi.cntGe
-  have ge : ∀ k, trackedCount (unbindHolders ctx var st.holders) k ≤ cntOf (unbindReg st.reg ctx var st.holders) k := by
+  obtain ⟨a1, a2, a3, a4, a5, _⟩ := unbind_spec cfg ctx var st.holders st.reg hi.regOK hi.noUnder hi.cntGe
+  have ge : ∀ k, trackedCount (unbindHolders cfg ctx var st.holders) k ≤ cntOf (unbindReg cfg st.reg ctx var st.holders) k := by
     intro k; have := a3 k; have := hi.cntGe k; omega
   simp only [step]
   refine ⟨a1, ge, fun hs k => ?_, ?_, a2⟩
@@ -415,7 +431,7 @@ theorem inv_delete (cfg : Cfg) (st : MState) (ctx var : String) (hi : Inv cfg st
   · intro h' hm k hk
     dsimp only at hm ⊢
     obtain ⟨h, hh, e1, e2, _⟩ := a5 h' hm
-    have hp : cntOf (unbindReg st.reg ctx var st.holders) k > 0 := by
+    have hp : cntOf (unbindReg cfg st.reg ctx var st.holders) k > 0 := by
       have := trackedCount_pos _ h' k hm hk; have := ge k; omega
     rw [(a4 k hp).1, e2]
     exact hi.owner h hh k (by rw [← e1]; exact hk)
@@ -442,11 +458,11 @@ theorem inv_define (cfg : Cfg) (st : MState) (ctx : String) (fn : Option String)
   by_cases hd : (cfg.delayTopLevel && fn.isNone) = true
   · -- file-level definition of the new subsystem: only scheduled
     simp only [hd, if_true]
-    obtain ⟨a1, a2, a3, a4, a5, _⟩ := unbind_spec ctx var st.holders st.reg hi.regOK hi.noUnder hi.cntGe
-    have tc : ∀ k, trackedCount (unbindHolders ctx var st.holders ++ [newHolder cfg ctx fn var gen decl]) k
-        = trackedCount (unbindHolders ctx var st.holders) k := by
+    obtain ⟨a1, a2, a3, a4, a5, _⟩ := unbind_spec cfg ctx var st.holders st.reg hi.regOK hi.noUnder hi.cntGe
+    have tc : ∀ k, trackedCount (unbindHolders cfg ctx var st.holders ++ [newHolder cfg ctx fn var gen decl]) k
+        = trackedCount (unbindHolders cfg ctx var st.holders) k := by
       intro k; simp [trackedCount_append, trackedCount_cons, trackedCount_nil, newHolder]
-    have ge : ∀ k, trackedCount (unbindHolders ctx var st.holders) k ≤ cntOf (unbindReg st.reg ctx var st.holders) k := by
+    have ge : ∀ k, trackedCount (unbindHolders cfg ctx var st.holders) k ≤ cntOf (unbindReg cfg st.reg ctx var st.holders) k := by
       intro k; have := a3 k; have := hi.cntGe k; omega
     refine ⟨a1, fun k => by dsimp only; rw [tc]; exact ge k, fun hs k => ?_, ?_, a2⟩
     · dsimp only; rw [tc]; have := a3 k; have := hi.cntEq hs k; omega
@@ -454,7 +470,7 @@ theorem inv_define (cfg : Cfg) (st : MState) (ctx : String) (fn : Option String)
       dsimp only at hm ⊢
       rcases List.mem_append.mp hm with hm | hm
       · obtain ⟨h, hh, e1, e2, _⟩ := a5 h' hm
-        have hp : cntOf (unbindReg st.reg ctx var st.holders) k > 0 := by
+        have hp : cntOf (unbindReg cfg st.reg ctx var st.holders) k > 0 := by
           have := trackedCount_pos _ h' k hm hk; have := ge k; omega
         rw [(a4 k hp).1, e2]
         exact hi.owner h hh k (by rw [← e1]; exact hk)
@@ -475,19 +491,19 @@ theorem inv_define (cfg : Cfg) (st : MState) (ctx : String) (fn : Option String)
       have hu : a.reg.underflow = false := by rw [q2]; exact hi.noUnder
       have pre : ∀ k, trackedCount st.holders k ≤ cntOf a.reg k := by
         intro k; have := hi.cntGe k; rw [q3]; omega
-      obtain ⟨a1, a2, a3, a4, a5, _⟩ := unbind_spec ctx var st.holders a.reg q1 hu pre
-      have tc : ∀ k, trackedCount (unbindHolders ctx var st.holders ++ (some { newHolder cfg ctx fn var gen decl with
+      obtain ⟨a1, a2, a3, a4, a5, _⟩ := unbind_spec cfg ctx var st.holders a.reg q1 hu pre
+      have tc : ∀ k, trackedCount (unbindHolders cfg ctx var st.holders ++ (some { newHolder cfg ctx fn var gen decl with
             pending := [], tracked := a.tracked, status := Status.running }).toList) k
-          = trackedCount (unbindHolders ctx var st.holders) k + a.tracked.count k := by
+          = trackedCount (unbindHolders cfg ctx var st.holders) k + a.tracked.count k := by
         intro k; simp [trackedCount_append, trackedCount_cons, trackedCount_nil]
-      have ge : ∀ k, trackedCount (unbindHolders ctx var st.holders) k + a.tracked.count k
-          ≤ cntOf (unbindReg a.reg ctx var st.holders) k := by
+      have ge : ∀ k, trackedCount (unbindHolders cfg ctx var st.holders) k + a.tracked.count k
+          ≤ cntOf (unbindReg cfg a.reg ctx var st.holders) k := by
         intro k; have := a3 k; have := hi.cntGe k; have := q3 k; have := q4 k; simp at this; omega
       refine ⟨a1, fun k => by dsimp only; rw [tc]; exact ge k, fun hs k => ?_, ?_, a2⟩
       · dsimp only; rw [tc]; have := a3 k; have := hi.cntEq hs k; have := q3 k; have := q5 hs k; simp at this; omega
       · intro h' hm k hk'
         dsimp only at hm ⊢
-        have hp : cntOf (unbindReg a.reg ctx var st.holders) k > 0 := by
+        have hp : cntOf (unbindReg cfg a.reg ctx var st.holders) k > 0 := by
           have h1 := trackedCount_pos _ h' k hm hk'; rw [tc] at h1; have := ge k; omega
         rw [(a4 k hp).1]
         rcases List.mem_append.mp hm with hm | hm
@@ -511,9 +527,9 @@ theorem inv_define (cfg : Cfg) (st : MState) (ctx : String) (fn : Option String)
       have hu : (releaseList a.reg a.tracked).underflow = false := by rw [b3, q2]; exact hi.noUnder
       have pre : ∀ k, trackedCount st.holders k ≤ cntOf (releaseList a.reg a.tracked) k := by
         intro k; have := hi.cntGe k; have := b2 k; have := q3 k; have := q4 k; simp at *; omega
-      obtain ⟨a1, a2, a3, a4, a5, _⟩ := unbind_spec ctx var st.holders _ b1 hu pre
-      have ge : ∀ k, trackedCount (unbindHolders ctx var st.holders) k
-          ≤ cntOf (unbindReg (releaseList a.reg a.tracked) ctx var st.holders) k := by
+      obtain ⟨a1, a2, a3, a4, a5, _⟩ := unbind_spec cfg ctx var st.holders _ b1 hu pre
+      have ge : ∀ k, trackedCount (unbindHolders cfg ctx var st.holders) k
+          ≤ cntOf (unbindReg cfg (releaseList a.reg a.tracked) ctx var st.holders) k := by
         intro k; have := a3 k; have := pre k; omega
       simp only [Option.toList_none, List.append_nil]
       refine ⟨a1, ge, fun hs k => ?_, ?_, a2⟩
@@ -521,7 +537,7 @@ theorem inv_define (cfg : Cfg) (st : MState) (ctx : String) (fn : Option String)
       · intro h' hm k hk''
         dsimp only at hm ⊢
         obtain ⟨h, hh, e1', e2', _⟩ := a5 h' hm
-        have hp : cntOf (unbindReg (releaseList a.reg a.tracked) ctx var st.holders) k > 0 := by
+        have hp : cntOf (unbindReg cfg (releaseList a.reg a.tracked) ctx var st.holders) k > 0 := by
           have := trackedCount_pos _ h' k hm hk''; have := ge k; omega
         have hp2 : cntOf (releaseList a.reg a.tracked) k > 0 := by
           have := trackedCount_pos _ h k hh (by rw [← e1']; exact hk''); have := pre k; omega
@@ -746,7 +762,7 @@ theorem eq_step (cfg : Cfg) (hd : cfg.delayTopLevel = false) (st : MState) (op :
   cases op with
   | start ctx events => simp only [step, hd, Bool.false_eq_true, if_false]; exact he
   | delete ctx var =>
-    obtain ⟨_, _, a3, _, _, _⟩ := unbind_spec ctx var st.holders st.reg hi.regOK hi.noUnder hi.cntGe
+    obtain ⟨_, _, a3, _, _, _⟩ := unbind_spec cfg ctx var st.holders st.reg hi.regOK hi.noUnder hi.cntGe
     intro k; have := a3 k; have := he k; simp only [step]; omega
   | unload ctx =>
     obtain ⟨_, _, a3, _, _⟩ := unload_spec ctx st.holders st.reg hi.regOK hi.noUnder hi.cntGe
@@ -766,7 +782,7 @@ theorem eq_step (cfg : Cfg) (hd : cfg.delayTopLevel = false) (st : MState) (op :
       have hu : a.reg.underflow = false := by rw [q2]; exact hi.noUnder
       have pre : ∀ k, trackedCount st.holders k ≤ cntOf a.reg k := by
         intro k; have := hi.cntGe k; rw [q3]; omega
-      obtain ⟨_, _, a3, _, _, _⟩ := unbind_spec ctx var st.holders a.reg q1 hu pre
+      obtain ⟨_, _, a3, _, _, _⟩ := unbind_spec cfg ctx var st.holders a.reg q1 hu pre
       intro k
       have := a3 k; have := he k; have h4 := qe k
       simp only [List.count_nil, Nat.add_zero] at h4
@@ -782,7 +798,7 @@ theorem eq_step (cfg : Cfg) (hd : cfg.delayTopLevel = false) (st : MState) (op :
       have hu : (releaseList a.reg a.tracked).underflow = false := by rw [b3, q2]; exact hi.noUnder
       have pre : ∀ k, trackedCount st.holders k ≤ cntOf (releaseList a.reg a.tracked) k := by
         intro k; have := hi.cntGe k; have := b2 k; have := q3 k; have := q4 k; simp at *; omega
-      obtain ⟨_, _, a3, _, _, _⟩ := unbind_spec ctx var st.holders _ b1 hu pre
+      obtain ⟨_, _, a3, _, _, _⟩ := unbind_spec cfg ctx var st.holders _ b1 hu pre
       intro k
       have := a3 k; have := he k; have h4 := qe k; have := b2 k
       simp only [List.count_nil, Nat.add_zero] at h4
